@@ -14,11 +14,11 @@ var (
 	roots     = []string{"/users/", "/posts/", "/u/", "/pages/", "/api/", "/s/", "/", "/a/b/", "/users/me/", "/posts/author/"}
 	bareRoots = []string{"abc/", "s-", "top.", "h"}
 	litLeaf   = []string{"a", "b", "c", "d", "e", "f", "g", "ab", "abc", "ac", "author", "new", "me", "log", "posts", "emails", "profile", "h.html", "m-n", "caf\u00e9", "\u65e5\u672c"}
-	tok1      = []string{`{k:qx|zw}`, `{-k:qx|zw}`, `{id}`, `{idx}`, `{name}`, `{-ign}`, `{id:\d+}`, `{uid:\d+}`, `{w:[a-z]+}`, `{id:digit}`, `{w:word}`, `{x:any}`, `{-n:\d+}`, `{-g:digit}`, `{n:[a-z]+}`}
+	tok1      = []string{`{v:min5}`, `{k:qx|zw}`, `{-k:qx|zw}`, `{id}`, `{idx}`, `{name}`, `{-ign}`, `{id:\d+}`, `{uid:\d+}`, `{w:[a-z]+}`, `{id:digit}`, `{w:word}`, `{x:any}`, `{-n:\d+}`, `{-g:digit}`, `{n:[a-z]+}`}
 	tok2      = []string{`{-alt:qx|zw}`, `{action}`, `{page:\d+}`, `{page:digit}`, `{path}`, `{-skip}`, `{sub:[a-z]+}`, `{act:word}`, `{pg:\d*}`, `{actn}`}
 	tails     = []string{"", "", "/", "/log", "/posts", ".html", "-x", "/a", "/ab", "/ac", "/author", "/emails", "_m", "/log/", ".htm"}
 	seps      = []string{"/", "-", ".", "_", "/p/", "/log/"}
-	allICs    = []string{"digit", "word", "any"}
+	allICs    = []string{"digit", "word", "any", "min5"}
 )
 
 // GenPool draws n distinct patterns that share prefixes and compete.
@@ -40,8 +40,18 @@ func usable(toks []string, ics []string) []string {
 	return res
 }
 
+// poolExtras adds token/tail pairs whose values are not "simple" (they contain literal bytes): only
+// the checks that do not rely on simple witnesses (C01, C02) switch it on.
+var poolExtras bool
+
 func GenPool(r *Rng, n int, ics []string) []string {
 	tok1, tok2 := usable(tok1, ics), usable(tok2, ics)
+	tails := tails
+	if poolExtras {
+		// same name, rule + following literal concatenate to the same text at different split points
+		tok1 = append(append([]string{}, tok1...), `{f:\d+a}`, `{f:\d+}`, `{f:\d+}`)
+		tails = append(append([]string{}, tails...), "a", "a")
+	}
 	nr := r.Range(1, 3)
 	var rs []string
 	for i := 0; i < nr; i++ {
@@ -90,6 +100,17 @@ func GenPool(r *Rng, n int, ics []string) []string {
 		}
 		add(root + pick(r, tok1) + pick(r, tails))
 	}
+	if r.Pct(8) {
+		// a grid: five or more literal siblings that all have children, no parameter sibling, and a late
+		// pattern that splits one of them
+		g := rs[0] + "g/"
+		for _, a := range []string{"a", "b", "c", "d", "e", "f"}[:r.Range(5, 6)] {
+			for _, b := range []string{"1", "2"}[:r.Range(1, 2)] {
+				add(g + a + "/" + b)
+			}
+		}
+		add(g + pick(r, []string{"bx", "cy", "a1", "d/"}))
+	}
 	// rare shapes: a pattern with more parameters than a pooled context may keep (30), a very long
 	// literal segment, a deep chain of parameters
 	if r.Pct(6) {
@@ -137,7 +158,7 @@ func GenICs(r *Rng) []string {
 	return ics
 }
 
-var richPieces = []string{"1", "7", "12", "x", "abc", "a", "/", ".", "-", "_", "log", ".html", "a/b", "5x", "x5", "", "0", "Z", "é", "\xff", " ", "%2F", "author", "me"}
+var richPieces = []string{"18446744073709551616", "1234567890123456789012345", "aaaaa", "1", "7", "12", "x", "abc", "a", "/", ".", "-", "_", "log", ".html", "a/b", "5x", "x5", "", "0", "Z", "é", "\xff", " ", "%2F", "author", "me"}
 
 // RichValue draws a value that may contain literal bytes.
 func RichValue(r *Rng) string {
